@@ -48,7 +48,7 @@ Fixpoint dedup_gty (l : list gty) : list gty :=
 Definition type_table (c : c3_case) (t : gty) : option (ttable * texpr * jshape) :=
   match ts_ref (c3_prog c) (ao_nodes (c3_ana c)) 12 t with
   | Ok te => let sh := shape_of (c3_prog c) (ao_nodes (c3_ana c)) (c3_enums c) 12 false t in
-             Some (tbuild (c3_env c) (env_of (c3_prog c) (ao_nodes (c3_ana c)) (c3_enums c)) 14 te sh, te, sh)
+             Some (tclose (c3_env c) (env_of (c3_prog c) (ao_nodes (c3_ana c)) (c3_enums c)) 5000 [(te, sh)] [], te, sh)
   | _ => None
   end.
 
